@@ -1,0 +1,6 @@
+//go:build !verif
+
+package cpr
+
+// verifYield is a no-op unless the binary is built with the "verif" tag.
+func verifYield() {}
